@@ -217,6 +217,7 @@ structure St where
   aLarge : Nat := 0
   aSmall : Nat := 0
   nbALarge : Nat := 0
+  nbBlocks : Nat := 0
   /-- `object_writer.map(|w| w.state)` -/
   writer : Option WS := none
   bw : Option BW := none
@@ -413,6 +414,7 @@ def pushToBlock2 (P : Params) (st : St) (p : Pkt) : Rx (St × Bool) :=
     | .ok (some pid) =>
       if tl = 0 then
         if st.bw.isSome then .error (.panic "debug_assert block_writer.is_none()") else .ok (complete st, true)
+      else if st.nbBlocks ≤ pid.sbn then .ok (st, true)      -- SBN out of range: packet ignored
       else if pid.sbn < st.blocksOffset then .ok (st, true)
       else
         let off := pid.sbn - st.blocksOffset
@@ -488,7 +490,7 @@ def cachePkt (st : St) (p : Pkt) : St × Bool :=
   if st.maxSize ≤ st.cacheSize then (st, false) else
   -- `self.cache_size.checked_add(pkt.data.len())`
   if U64 ≤ st.cacheSize + p.dataLen then (st, false) else
-  ({ st with cache := p :: st.cache }, true)
+  ({ st with cacheSize := st.cacheSize + p.dataLen, cache := p :: st.cache }, true)
 
 /-- `init_blocks_partitioning` -/
 def initBlocksPartitioning (st : St) : Rx St :=
@@ -498,7 +500,7 @@ def initBlocksPartitioning (st : St) : Rx St :=
     match liftRs (Partition.blockPartitioning o.b tl o.e) with
     | .error f => .error f
     | .ok (aL, aS, nL, n) =>
-      .ok { st with aLarge := aL, aSmall := aS, nbALarge := nL,
+      .ok { st with aLarge := aL, aSmall := aS, nbALarge := nL, nbBlocks := n,
                     blocks := List.replicate (min n MAX_PREALLOCATED_BLOCKS) {} }
   | _, _ => .ok st
 
@@ -540,6 +542,8 @@ def push (P : Params) (st : St) (p : Pkt) : Rx St :=
   match pushFromCache P st with
   | .error f => .error f
   | .ok st =>
+  -- the writer refused the object, could not be opened, or the object ended while the cache was replayed
+  if st.state ≠ .receiving then .ok st else
   if st.oti.isNone then
     match cachePkt st p with
     | (st, true) => .ok st
